@@ -84,6 +84,8 @@ fn suite_board(cx: &mut Ctx, tier: &str, shard: usize, nshards: usize, variant: 
     family_ep_lines(&mut fam);
     family_minor_stalemates(&mut fam);
     let n_defects = fam.len() - before_defects;
+    family_crowded(&mut frng, tier_n(tier, 240, 4000), &mut fam);
+    family_collinear(&mut fam);
     let stride = tier_n(tier, 6, 1);
     let off = cx.rng.below(stride);
     for (i, d) in fam.iter().enumerate() {
@@ -766,6 +768,16 @@ fn suite_prim(w: &mut dyn Write, tier: &str, seed: u64, shard: usize, nshards: u
             let t = PieceType::from_index(n).unwrap();
             p(w, "ptype_parse_text", n.to_string(), r(PieceType::from_str(&format!("{}", t)).map(|x| x.to_index().to_string())));
             p(w, "ptype_parse_lower", n.to_string(), r(PieceType::from_str(&format!("{}", t).to_lowercase()).map(|x| x.to_index().to_string())));
+        }
+        // foreign texts for the four text conversions: empty, runs of neighbouring names, upper case, blanks, digits, two-byte characters
+        for t in ["", "ab", "gh", "abc", "abcdefgh", "ba", "aa", "i", "A", "H", " a", "a ", "a\n", "0", "9", "12", "78", "18", "1 ", "é", "a1", "h8", "a9", "i1", "A1", "a1b", "a1a1", "1a",
+                  "é1", "aé", "P", "p", "PN", "NB", "pn", "X", "kq", "KQ", "Kk", "-", "bb", "11", "\u{430}", "e", "4", "e4", "E4"] {
+            let q = |x: Result<String, errors::LibChessError>| match x { Ok(s) => format!("ok:{}", s), Err(_) => "err".to_string() };
+            let g = |f: &dyn Fn() -> String| match quiet(f) { Ok(s) => s, Err(_) => "panic".to_string() };
+            p(w, "file_parse_str", hex(t), g(&|| q(libchess::File::from_str(t).map(|x| x.to_index().to_string()))));
+            p(w, "rank_parse_str", hex(t), g(&|| q(Rank::from_str(t).map(|x| x.to_index().to_string()))));
+            p(w, "sq_parse_str", hex(t), g(&|| q(Square::from_str(t).map(|x| x.to_int().to_string()))));
+            p(w, "ptype_parse_str", hex(t), g(&|| q(PieceType::from_str(t).map(|x| x.to_index().to_string()))));
         }
         p(w, "ptype_iter", "-".into(), PieceType::iter().map(|t| t.to_index().to_string()).collect::<Vec<_>>().join(","));
         for a in 0..4u8 {
